@@ -63,7 +63,7 @@ def gen_cases(tier, seed):
     for N in ((8192, 100003) if tier == "quick" else (8192, 30011, 100003)):
         for dt in b["dtypes"]:
             yield {"kind": "long", "N": N, "dtype": dt}
-    for rate in ("100 MHz", "400 MHz", "800 MHz", "1 GHz", "3 kHz", "48 kHz", "2.5 MHz"):
+    for rate in ("100 MHz", "400 MHz", "800 MHz", "1 GHz", "3 kHz", "48 kHz", "2.5 MHz", "500 kHz", "1 Hz", "10 Hz"):
         yield {"kind": "dense_quantity", "rate": rate}
 
 
@@ -240,7 +240,8 @@ def dense_quantity_case(case, res):
     x = rng.uniform(1, 2, N)
     z = pb.Signal(x, sample_rate=rate, start_time=Time("2021-01-01T00:00:00", precision=9))
     step_unit = {"100 MHz": (1, u.ns), "400 MHz": (2.5, u.ns), "800 MHz": (1.25, u.ns), "1 GHz": (1, u.ns), "3 kHz": (1 / 3, u.ms),
-                 "48 kHz": (125 / 6, u.us), "2.5 MHz": (0.4, u.us)}[case["rate"]]
+                 "48 kHz": (125 / 6, u.us), "2.5 MHz": (0.4, u.us), "500 kHz": (2000, u.ns), "1 Hz": (1e9, u.ns),
+                 "10 Hz": (0.1, u.s)}[case["rate"]]
     for k in range(1, 641):
         for sign in (1, -1):
             q = (sign * k * step_unit[0]) * step_unit[1]
@@ -304,6 +305,16 @@ def check_case(case):
     zg_g = make_signal(N, dtype, ss, g.astype(dtype), rate="1GHz")
     Xg = np.asarray(zg.data)
 
+    for bad_shape in [tuple(n_ + 1 if i == k_ else n_ for i, n_ in enumerate(ss[:m_])) for m_ in range(1, len(ss) + 1) for k_ in range(m_)]:
+        res.transitions += 1
+        try:
+            o_ = pb.time_shift(zg, np.ones(bad_shape))
+            res.violation("time_shift|mismatching shift shape accepted", f"shift of shape {bad_shape} on sample shape {ss}: returned "
+                          f"shape {o_.shape}", case, {"shape": list(bad_shape)})
+        except ValueError:
+            res.hits["mismatching shift shape refused"] += 1
+        except Exception as e:
+            res.violation("time_shift|mismatching shift shape wrong exception", f"{type(e).__name__}: {e}", case, {"shape": list(bad_shape)})
     if N >= 4:
         history.reuse_buffer(res, case, zg, [("time_shift 1.25", lambda q: pb.time_shift(q, 1.25)),
                                              ("time_shift -2 crop", lambda q: pb.time_shift(q, -2, crop=True)),
@@ -553,7 +564,7 @@ def check_call_block(res, case, z, Xof, shift_arg, svals, ss, sub, crop_pair, to
 def main(argv=None):
     return report.run_check(
         PID, gen_cases=gen_cases, check_case=check_case, describe=describe,
-        required_hits=["buffer overwritten between calls", "zero-fill rows checked", "length-1 shift axis broadcast over a longer sample axis",
+        required_hits=["buffer overwritten between calls", "mismatching shift shape refused", "zero-fill rows checked", "length-1 shift axis broadcast over a longer sample axis",
                        "shift array with fewer axes than the sample shape", "|s| >= N (all zero)", "crop to empty",
                        "mixed-sign crop", "time Quantity shift", "Quantity unit not reciprocal to the rate unit", "negative zero in a shift array", "argument forms", "long signal, large shift", "long signal, Quantity shift slightly off a whole sample", "long signal, float32 shift", "whole-sample Quantity shift with the count fixed by exact arithmetic", "too many dims rejected",
                        "complex even-N fractional (two Nyquist conventions accepted)",
